@@ -371,6 +371,7 @@ package xmpp
 //@   ghost steps int = 0
 //@   ghost okMask SessionState = 0
 //@   ghost lastMask SessionState = 0
+//@   ghost lastNS string
 //@   callsite (encoding/xml.TokenReader).Token#*
 //@     preserves s.state, s.negotiated, s.features, s.in.d, list, list.cache, list.req, list.total, features
 //@   callsite decodeStreamErr#1
@@ -387,10 +388,13 @@ package xmpp
 //@     after: stepErr = ret2 != nil
 //@     after: steps = steps + 1
 //@     after: lastMask = ret0
+//@     after: lastNS = self.Name.Space
 //@     after: okMask = okMask | ite(ret2 == nil, ret0, 0)
 //@   ensures[C01,C02,C04] s.state & old(s.state) == old(s.state)
 //@   ensures[C01,C02,C04] s.negotiated == old(s.negotiated) && s.features == old(s.features)
 //@   ensures[C01,C02,C04] stepErr ==> err != nil
+//@   ensures[C01,C02,C04] steps > 0 ==> has(s.negotiated, lastNS)
+//@   ensures[C01,C02,C04] forall k string :: old(has(s.negotiated, k)) ==> has(s.negotiated, k)
 //@   ensures[C01,C02,C04] err == nil && !server && mask & Ready != 0 && lastMask & Ready == 0 ==> forall k string :: has(list.cache, k) && !has(s.negotiated, k) && negotiable(list.cache[k].feature, s.state) ==> !list.cache[k].req
 //@   ensures[C01,C02,C04] err == nil && server && mask & Ready != 0 && lastMask & Ready == 0 ==> !list.req
 //@   ensures[C01,C02,C04] err == nil && rw != nil && lastMask & Ready == 0 ==> mask & Ready == 0
@@ -404,6 +408,8 @@ package xmpp
 //@     invariant[C01,C02,C04] !server ==> forall k string :: has(list.cache, k) ==> list.cache[k].feature.Name.Local != ""
 //@     invariant[C01,C02,C04] !server && doStartTLS ==> first && steps == 0 && startTLS.Name.Space == ns.StartTLS && s.state & Secure == 0 && prereq(s.state, startTLS) && startTLS.Negotiate != nil && !has(s.negotiated, ns.StartTLS) && exists i int :: 0 <= i && i < len(features) && features[i] == startTLS
 //@     invariant[C01,C02,C04] !stepErr
+//@     invariant[C01,C02,C04] steps > 0 ==> has(s.negotiated, lastNS)
+//@     invariant[C01,C02,C04] forall k string :: old(has(s.negotiated, k)) ==> has(s.negotiated, k)
 //@     invariant[C01,C02,C04] s.state == old(s.state) | okMask
 //@   loop 2
 //@     invariant[C01,C02,C04] forall k string :: visited1(k) && has(list.cache, k) && !has(s.negotiated, k) && negotiable(list.cache[k].feature, s.state) ==> list.cache[k].req && data.feature.Name.Local != ""
@@ -421,6 +427,7 @@ package xmpp
 //@   ensures[C01,C02,C04] session.state & old(session.state) == old(session.state)
 //@   ensures[C01,C02,C04] session.negotiated == old(session.negotiated) && session.features == old(session.features)
 //@   ensures[C01,C02,C04] !sawFeatures(cache) ==> unchanged(session.negotiated) && !old(sawFeatures(data))
+//@   ensures[C01,C02,C04] forall k string :: old(has(session.negotiated, k)) ==> has(session.negotiated, k)
 
 // The default negotiator.
 //@ func negotiator$1
@@ -452,6 +459,7 @@ package xmpp
 //@   ensures[C01,C02,C04] s.state & old(s.state) == old(s.state)
 //@   ensures[C01,C02,C04] s.negotiated == old(s.negotiated) && s.features == old(s.features)
 //@   ensures[C01,C02,C04] !sawFeatures(restartNext) ==> unchanged(s.negotiated) && !old(sawFeatures(data))
+//@   ensures[C01,C02,C04] forall k string :: old(has(s.negotiated, k)) ==> has(s.negotiated, k)
 
 // negotiateSession: the negotiator is called until the ready bit is set; the
 // first negotiator error ends negotiation; state bits are only added; after a
@@ -462,6 +470,8 @@ package xmpp
 //@   ghost lastData interface{}
 //@   ghost first bool = true
 //@   ghost newRW io.ReadWriter
+//@   ghost anyK string
+//@   ghost inSet bool = false
 //@   callsite foreign#*
 //@     preserves s.state, s.negotiated, s.features, s
 //@   callsite type:Negotiator#1
@@ -471,7 +481,9 @@ package xmpp
 //@     after: negErr = ret3 != nil
 //@     after: lastData = ret2
 //@     after: first = false
+//@     assert[C01,C02,C04] !first && newRW == nil && inSet ==> has(s.negotiated, anyK)
 //@     after: newRW = ret1
+//@     after: inSet = has(s.negotiated, anyK)
 //@   callsite newConn#2
 //@     assert[C01,C02,C04] arg0 == newRW && newRW != nil
 //@     preserves s.state, s.negotiated, s.features
@@ -487,6 +499,7 @@ package xmpp
 //@     invariant[C01,C02,C04] first ==> data == nil
 //@     invariant[C01,C02,C04] !sawFeatures(data) ==> forall k string :: !has(s.negotiated, k)
 //@     invariant[C01,C02,C04] !first ==> data == lastData
+//@     invariant[C01,C02,C04] !first && newRW == nil && inSet ==> has(s.negotiated, anyK)
 //@   loop 2
 //@     invariant[C01,C02,C04] s.state & state == state && s.features != nil && s.negotiated != nil
 //@   loop 3
@@ -579,6 +592,7 @@ package xmpp
 // Transmit entry points: nothing is handed to the encoder once the output is
 // closed, and the caller is told so.
 //@ func send
+//@   nullable start
 //@   callsite foreign#*
 //@     preserves s.state
 //@   callsite setWriteDeadline#1
